@@ -108,6 +108,14 @@ CHECKS = {
                      "parameter free) decides that every arc stays in the quadratic-approximation band and the integrated area lies in [pi r^2, pi(1+delta)^2 r^2]; invalid integer "
                      "parameters raise ValueError.",
                 technique="symbolic execution of the real code (SYMX) + z3 (QF_NRA band lemma per arc, identities)"),
+    "C11": dict(level="other", design="2.4, 4/C11",
+                text="AST->SMT crash-point model regenerated from the current sources: every non-in-place function that applies invert/move/scale/rotate to an operand-derived "
+                     "object is translated into z3 terms (each call / comparison may raise; loops unrolled to 3; try/finally structural; crash location symbolic) and z3 decides "
+                     "whether a crash can leave an operand mutated; models are replayed by raising from a line-trace hook at the reported line while operators/containment/equality "
+                     "run on catalogue shapes, comparing operand region snapshots. In-place transformations: z3 model of mutation-before-validation, replayed with invalid arguments.",
+                technique="AST-to-SMT bounded crash-point model (z3) of the real source + fault-injection replay",
+                note="Bounded: single fault per call, loops unrolled to 3, faults at call boundaries / line granularity. Trusted: z3, the AST translator's classification of in-place "
+                     "mutators and fresh objects (validated by the replays), that split/clean are region preserving (C15)."),
 }
 NA = {}
 
